@@ -4,6 +4,7 @@ import (
 	"encoding/json"
 	"fmt"
 	"strings"
+	"time"
 
 	"verif/internal/fw"
 )
@@ -63,6 +64,7 @@ type ScenOpts struct {
 	NoWebhookCtx   bool   // templates never reference @webhook / @legacy_extra (C02)
 	SmallOptions   bool   // C05: boundary engine options
 	LongTexts      bool   // texts beyond the limits with multi-byte chars at the cut
+	History        bool   // long histories: templates that read the run's history, a resume limit within reach of the resumes
 	Deterministic  bool   // only deterministic functions in templates
 	MaxNodes       int
 	MaxResumes     int
@@ -265,6 +267,10 @@ var safeTemplates = []string{
 var webhookTemplates = []string{"@webhook", "@webhook.json", "@(json(webhook))", "@webhook.status", "@legacy_extra", "@(default(webhook.json.results[0].state, \"x\"))", "@results.webhook.extra",
 	"@(webhook.json.vip)", "@(webhook.json[0])", "@trigger.params.vip", "@(trigger.params.blocked)", "@(trigger.params.flags[0])", "@(if(trigger.params.vip, \"vip\", \"std\"))", "@(default(webhook.json, \"nothing\"))"}
 
+// what a run remembers of its past: every step, every result, every visit of the node it is at
+var historyTemplates = []string{"@node.visit_count", "visits: @node.visit_count steps: @(count(run.path))", "@(count(run.path))", "@run.path", "@(json(run.path))", "@(run.path[0])", "@(count(results)) @results",
+	"@(json(run.results))", "@(count(parent.results)) @(default(parent.run.path, \"np\"))", "@(default(child.run.path, \"nc\")) @child.results", "@run.created_on @run.modified_on", "@(if(node.visit_count > 20, \"many\", \"few\"))"}
+
 var envSensitiveTemplates = []string{
 	"@(format_datetime(contact.created_on)) @(format_number(1234.5))", "@fields.joined @(format_date(fields.joined))", "@(format_time(contact.created_on)) @(1234.5)", "@(format(contact.created_on)) @(format(1234567.891))",
 	"@(format_datetime(\"2018-03-04T00:00:00Z\")) @(text(1.5))", "@(datetime(\"01-02-2018 10:30\"))", "@(format_number(fields.age, 2))", "@(default(contact.language, \"none\")) @(format_date(\"2018-01-02\"))", "@(tz(contact.created_on))",
@@ -277,6 +283,9 @@ func (g *scenGen) tpl() string {
 	}
 	if !g.o.NoWebhookCtx && r.Chance(0.08) {
 		return fw.Pick(r, webhookTemplates)
+	}
+	if g.o.History && r.Chance(0.3) {
+		return fw.Pick(r, historyTemplates)
 	}
 	switch r.Intn(20) {
 	case 0:
@@ -552,7 +561,13 @@ func (g *scenGen) node(i int, nodes []nodeSpec, ftype string, flowIdx int, loc M
 				cats[k]["exit_uuid"] = cats[0]["exit_uuid"] // shared exit
 			}
 			catJSON = append(catJSON, cats[k])
-			g.translate(loc, cats[k]["uuid"].(string), "name", []string{name}, func() string { return fw.Pick(r, []string{"Si", "Non", "Autre", "Rouge"}) })
+			g.translate(loc, cats[k]["uuid"].(string), "name", []string{name}, func() string {
+				if g.o.LongTexts && r.Chance(0.4) {
+					// a translation is not bound by the length limit of the name it translates
+					return LongString(fw.Pick(r, []int{35, 36, 37, 64, 65, 640, 641}), fw.Pick(r, []int{34, 35, 36, 63, 64, 639, 640}))
+				}
+				return fw.Pick(r, []string{"Si", "Non", "Autre", "Rouge", " ", "A\nB", "\"q\""})
+			})
 		}
 		router := M{"categories": catJSON}
 		if r.Chance(0.6) {
@@ -1171,8 +1186,12 @@ func (g *scenGen) resumes() {
 		urnsOf = u
 	}
 	for i := 0; i < n; i++ {
-		res := M{"resumed_on": fmt.Sprintf("2018-07-%02dT%02d:%02d:00.5Z", 2+i, r.Intn(24), r.Intn(60))}
-		switch r.Weighted([]int{70, 12, 10, 8}) {
+		res := M{"resumed_on": time.Date(2018, 7, 2+i, r.Intn(24), r.Intn(60), 0, 500000000, time.UTC).Format("2006-01-02T15:04:05.0Z")}
+		weights := []int{70, 12, 10, 8}
+		if g.ftype == "voice" {
+			weights = []int{50, 10, 10, 30}
+		}
+		switch r.Weighted(weights) {
 		case 0:
 			res["type"] = "msg"
 			res["msg"] = g.msg(urnsOf)
@@ -1298,6 +1317,11 @@ func Pick2(r *fw.Rand, xs []string, not string) string {
 
 func (g *scenGen) options() {
 	r := g.r
+	if g.o.History && !g.o.SmallOptions {
+		// engine defaults except for a resume limit that the scenario's resumes can reach
+		g.s.Options = Options{Set: true, MaxSteps: 100, MaxResumes: fw.Pick(r, []int{8, 20, 40, 500}), MaxTemplateChars: 10000, MaxFieldChars: 640, MaxResultChars: 640}
+		return
+	}
 	if !g.o.SmallOptions || r.Chance(0.2) {
 		return
 	}
